@@ -277,6 +277,17 @@ def expr_rearrangements(expr: str, limit: int = 24) -> List[str]:
             if len(terms) <= 4:
                 for perm in itertools.permutations(terms):
                     res.extend(_bracketings(list(perm), op_type))
+            else:
+                # long chains: a fixed family instead of all permutations — reversed, rotated, ends swapped, folded from the right,
+                # split in two parenthesised halves
+                def fold_right(ts):
+                    cur = ts[-1]
+                    for t in reversed(ts[:-1]):
+                        cur = ast.BinOp(left=t, op=op_type(), right=cur)
+                    return cur
+                half = len(terms) // 2
+                res.extend([build(list(reversed(terms)), op_type), build(terms[1:] + terms[:1], op_type), build([terms[-1]] + terms[1:-1] + [terms[0]], op_type),
+                            fold_right(terms), ast.BinOp(left=build(terms[half:], op_type), op=op_type(), right=build(terms[:half], op_type))])
             for i, t in enumerate(terms):
                 for v in variants(t):
                     res.append(build(terms[:i] + [v] + terms[i + 1:], op_type))
@@ -333,6 +344,15 @@ def type_mutants(v: Any) -> List[Any]:
         if v == 0.0:
             out.append(-v)
         return out
+    return []
+
+
+def ulp_mutants(v: Any) -> List[Any]:
+    """The nearest other float: a different value, however small the difference."""
+    import math
+
+    if isinstance(v, float) and v == v and v not in (float("inf"), float("-inf")):
+        return [math.nextafter(v, math.inf)] + ([1e-13] if v == 0.0 else [])
     return []
 
 
